@@ -34,9 +34,13 @@ InvKeys(j) == IF j > 1 THEN <<>> ELSE [x \in 1..(3 * Len(InvVals)) |-> InvKey(j,
 \* master secrets for which the 256-bit SUM H1 + k wraps: k = 2^256 - H1 (a legal key whenever it is below N, i.e. for H1 > 2^256 - N): t1 = 2^256 mod N is not
 \* zero, extraction must succeed -- a zero test on the raw machine sum sees 0
 Two256 == <<1>> \o [q \in 1..32 |-> 0]
-WrapK(j, hid) == BSub(Two256, H1(IdOf(j), hid))
-WrapKey(j, hid) == [kind |-> "wrapkey", hid |-> hid, idb |-> IdOf(j), k |-> B32(WrapK(j, hid)), legal |-> IF BLt(WrapK(j, hid), N) THEN 1 ELSE 0]
-WrapKeys(j) == << WrapKey(j, 1), WrapKey(j, 2), WrapKey(j, 3) >>
+WrapKOf(idv, hid) == BSub(Two256, H1(idv, hid))
+WrapRec(hid, idv) == [kind |-> "wrapkey", hid |-> hid, idb |-> idv, k |-> B32(WrapKOf(idv, hid)), legal |-> IF BLt(WrapKOf(idv, hid), N) THEN 1 ELSE 0]
+\* the first identity among "w00", "w01", ... for which the key is legal (about 7 in 10 are)
+WNum(i) == <<119, 48 + ((i \div 10) % 10), 48 + (i % 10)>>
+RECURSIVE FindWrap(_, _)
+FindWrap(i, hid) == IF i > 60 \/ BLt(WrapKOf(WNum(i), hid), N) THEN WNum(i) ELSE FindWrap(i + 1, hid)
+WrapKeys(j) == IF j > 1 THEN <<>> ELSE << WrapRec(1, FindWrap(0, 1)), WrapRec(2, FindWrap(0, 2)), WrapRec(3, FindWrap(0, 3)) >>
 \* identities whose hash H1(ID || hid) is SHORT (leading zero byte: 1 in 256): searched by the specification among "id000", "id001", ...
 IdNum(i) == <<105, 100, 48 + ((i \div 100) % 10), 48 + ((i \div 10) % 10), 48 + (i % 10)>>
 RECURSIVE FindShort(_, _, _)
